@@ -241,9 +241,11 @@ fn needs_sep(a: &Tk, b: &Tk) -> bool {
 
 struct Trivia { heavy: usize, lone_cr: bool, bom: bool, comments: bool, crlf: bool }
 
-const COMMENT_TEXTS: &[&str] = &["", " c", "c", " a, b { }", " \"q\" \\ ", " é 日本 😀", " import", " important stuff", "# nested", "\t tab", " import x"];
+const COMMENT_TEXTS: &[&str] = &["", " c", "c", " a, b { }", " \"q\" \\ ", " é 日本 😀", "# nested", "\t tab", " important stuff", " import", " import x"];
+/// inside an import statement a comment that itself starts like an import statement can change the meaning
+const N_SAFE_COMMENT_TEXTS: usize = 9;
 
-fn trivia_piece(rng: &mut Rng, t: &Trivia, out: &mut String) {
+fn trivia_piece(rng: &mut Rng, t: &Trivia, in_import: bool, out: &mut String) {
     match rng.below(12) {
         0 | 1 | 2 => out.push(' '),
         3 => out.push('\t'),
@@ -254,7 +256,7 @@ fn trivia_piece(rng: &mut Rng, t: &Trivia, out: &mut String) {
         9 => if t.bom { out.push('\u{FEFF}') } else { out.push(' ') },
         _ => if t.comments {
             out.push('#');
-            out.push_str(*rng.pick(COMMENT_TEXTS));
+            out.push_str(if in_import { COMMENT_TEXTS[rng.below(N_SAFE_COMMENT_TEXTS)] } else { *rng.pick(COMMENT_TEXTS) });
             match rng.below(6) { 0 if t.crlf => out.push_str("\r\n"), 1 if t.lone_cr => out.push('\r'), _ => out.push('\n') }
         } else { out.push(' ') },
     }
@@ -263,12 +265,15 @@ fn trivia_piece(rng: &mut Rng, t: &Trivia, out: &mut String) {
 /// re-renders a token sequence with random ignored tokens in every gap
 fn render_trivia(rng: &mut Rng, toks: &[Tk], t: &Trivia) -> String {
     let mut out = String::new();
-    let gap = |rng: &mut Rng, out: &mut String| {
-        if rng.chance(t.heavy, 10) { for _ in 0..rng.range(1, 3) { trivia_piece(rng, t, out); } }
+    let gap = |rng: &mut Rng, out: &mut String, in_import: bool| {
+        if rng.chance(t.heavy, 10) { for _ in 0..rng.range(1, 3) { trivia_piece(rng, t, in_import, out); } }
     };
     if t.bom && rng.chance(1, 3) { out.push('\u{FEFF}'); }
-    gap(rng, &mut out);
+    gap(rng, &mut out, false);
+    let mut in_import = false;
     for (i, tk) in toks.iter().enumerate() {
+        if *tk == Tk::ImportHash { in_import = true; }
+        if matches!(tk, Tk::Str(_)) { in_import = false; }
         out.push_str(tk_text(tk));
         if i + 1 == toks.len() { break; }
         if *tk == Tk::ImportHash {
@@ -276,14 +281,14 @@ fn render_trivia(rng: &mut Rng, toks: &[Tk], t: &Trivia) -> String {
             continue;
         }
         let before = out.len();
-        gap(rng, &mut out);
+        gap(rng, &mut out, in_import);
         if out.len() == before {
             // canonical-ish spacing: a space where needed, sometimes nothing, sometimes a newline
             if needs_sep(tk, &toks[i + 1]) { out.push(' '); }
             else if rng.chance(1, 2) { out.push(if rng.chance(1, 4) { '\n' } else { ' ' }); }
         }
     }
-    gap(rng, &mut out);
+    gap(rng, &mut out, false);
     // a final comment without a line terminator
     if t.comments && rng.chance(1, 6) { out.push('#'); out.push_str(*rng.pick(COMMENT_TEXTS)); }
     out
@@ -440,7 +445,7 @@ fn to_block(rng: &mut Rng, toks: &[Tk], indent: bool) -> (Vec<Tk>, bool) {
 // production-coverage generator: token sequences straight from the grammar of the specification,
 // all productions, names that look like keywords, nested values
 
-struct PG<'a> { rng: &'a mut Rng, t: Vec<Tk>, budget: i32 }
+struct PG<'a> { rng: &'a mut Rng, t: Vec<Tk>, budget: i32, constructs: Vec<&'static str> }
 const NAMES: &[&str] = &["a", "b1", "foo", "A", "Bar", "_", "__typename", "_x9", "query", "mutation", "type", "input", "enum", "extend", "schema", "implements",
     "repeatable", "import", "from", "fragment", "interface", "union", "scalar", "directive", "subscription", "onX", "queryX", "trueish", "nullable", "Int", "String", "ID"];
 const TYPE_NAMES: &[&str] = &["Int", "String", "A", "Bar", "T_1", "on", "query", "type", "null", "true", "ID", "Float"];
@@ -458,6 +463,7 @@ impl<'a> PG<'a> {
     fn name_not(&mut self, bad: &[&str]) { loop { let s = *self.rng.pick(NAMES); if !bad.contains(&s) { self.n(s); return; } } }
     fn tname(&mut self) { let s = *self.rng.pick(TYPE_NAMES); self.n(s); }
     fn string(&mut self) {
+        if self.rng.chance(1, 40) { self.constructs.push("surrogate-pair-escape"); self.t.push(Tk::Str("\"\\uD83D\\uDE00\"".into())); return; }
         if self.rng.chance(1, 4) { let s = *self.rng.pick(BLOCKS); self.t.push(Tk::Block(s.into())); } else { let s = *self.rng.pick(STRS); self.t.push(Tk::Str(s.into())); }
     }
     fn desc(&mut self) { if self.rng.chance(1, 4) { self.string(); } }
@@ -596,7 +602,8 @@ impl<'a> PG<'a> {
             2 | 3 => {
                 self.desc(); self.n("type"); self.tname();
                 if self.rng.chance(1, 3) { self.implements(); }
-                if self.rng.chance(1, 5) { self.dirs1(true); if self.rng.chance(1, 2) { self.fields(); } } else { self.dirs(true); self.fields(); }
+                if self.rng.chance(1, 12) { self.constructs.push("object-type-without-fields"); }
+                else if self.rng.chance(1, 5) { self.dirs1(true); if self.rng.chance(1, 2) { self.fields(); } } else { self.dirs(true); self.fields(); }
             }
             4 => {
                 self.desc(); self.n("interface"); self.tname();
@@ -605,7 +612,9 @@ impl<'a> PG<'a> {
                 if self.rng.chance(4, 5) { self.fields(); }
             }
             5 => {
-                self.desc(); self.n("union"); self.tname(); self.dirs(true); self.p("=");
+                self.desc(); self.n("union"); self.tname(); self.dirs(true);
+                if self.rng.chance(1, 10) { self.constructs.push("union-without-members"); return; }
+                self.p("=");
                 if self.rng.chance(1, 4) { self.p("|"); }
                 self.tname();
                 for _ in 0..self.rng.below(3) { self.p("|"); self.tname(); }
@@ -762,58 +771,59 @@ fn dedent(s: &str) -> String {
 // ------------------------------------------------------------------------------------------------
 
 /// fixed witnesses and regression inputs, always run first
-fn corpus() -> Vec<(Kind, &'static str, &'static str)> {
+fn corpus() -> Vec<(Kind, &'static str, &'static str, bool)> {
     vec![
-        (Kind::Op, "shorthand", "{ a }"),
-        (Kind::Op, "shorthand-nested", "{ a { x } }"),
-        (Kind::Op, "trailing-comment-no-newline", "query { a } # c"),
-        (Kind::Op, "lone-cr", "query Q {\r  x\r}"),
-        (Kind::Op, "crlf", "query Q {\r\n  x\r\n}"),
-        (Kind::Op, "astral-column", "{ x(s: \"😀\") y }"),
-        (Kind::Op, "surrogate-escape", "{ a(s: \"\\uD800\") }"),
-        (Kind::Op, "brace-escape-too-big", "{ a(s: \"\\u{110000}\") }"),
-        (Kind::Op, "brace-escape-overflow", "{ a(s: \"\\u{FFFFFFFFF}\") }"),
-        (Kind::Op, "brace-escape-ok", "{ a(s: \"\\u{1F600}\\u{41}\") }"),
-        (Kind::Op, "block-string-raw", "{ a(s: \"\"\"\n    hello\n      world\n  \"\"\") }"),
-        (Kind::Op, "block-string-escape", "{ a(s: \"\"\"x \\\"\"\" y\"\"\") }"),
-        (Kind::Op, "block-string-simple", "{ a(s: \"\"\"simple\"\"\") }"),
-        (Kind::Op, "empty-string", "{ a(s: \"\") }"),
-        (Kind::Op, "bom", "\u{FEFF}query { a }"),
-        (Kind::Op, "commas", ",,query,Q,{,a,,b,},"),
-        (Kind::Op, "import", "#import F, G from \"./f.graphql\"\nquery { ...F }"),
-        (Kind::Op, "import-wildcard", "# import * from \"x\"\n{ a }"),
-        (Kind::Op, "import-multiline", "#import A,\n  B # c\n from \"x\" { a }"),
-        (Kind::Op, "important-comment", "# important\n{ a }"),
-        (Kind::Op, "keyword-names", "query query($on: on = on) { on: on fragment: type ...query ... on on { on } }"),
-        (Kind::Op, "numbers", "{ a(i: -0, j: 12, f: 1.5e-3, g: 1E5, h: 0.0) }"),
-        (Kind::Op, "int-then-name", "{ a(i: 1x) }"),
-        (Kind::Op, "float-dot", "{ a(i: 1.) }"),
-        (Kind::Op, "var-space", "query ($ a : Int) { f(x: $ a) @ d }"),
-        (Kind::Op, "empty-doc", ""),
-        (Kind::Op, "only-comment", "# nothing"),
-        (Kind::Op, "empty-selection", "{ }"),
-        (Kind::Op, "deep", "{a{b{c{d{e{f{g{h}}}}}}}}"),
-        (Kind::Op, "values", "{ a(l: [], o: {}, n: null, t: true, f: false, e: E, ll: [[1], [{k: [$v]}]]) }"),
-        (Kind::Ts, "type-no-body", "type A"),
-        (Kind::Ts, "type-implements-no-body", "type A implements I"),
-        (Kind::Ts, "type-directive-no-body", "type A @d"),
-        (Kind::Ts, "union-no-members", "union U"),
-        (Kind::Ts, "union-eq-no-members", "union U ="),
-        (Kind::Ts, "union-leading-bar", "union U = | A | B"),
-        (Kind::Ts, "implements-leading-amp", "type A implements & I & J { f: Int }"),
-        (Kind::Ts, "interface-no-body", "interface I"),
-        (Kind::Ts, "enum-no-body", "enum E"),
-        (Kind::Ts, "input-no-body", "input X @d"),
-        (Kind::Ts, "schema", "\"d\" schema @a { query: Q mutation: M }"),
-        (Kind::Ts, "extend-schema", "extend schema @x"),
-        (Kind::Ts, "extend-all", "extend scalar S @d extend type A implements I extend interface I @d extend union U = A extend enum E { X } extend input In { a: Int = 1 }"),
-        (Kind::Ts, "directive-def", "\"\"\"doc\"\"\" directive @d(a: Int = 1 @x, \"d\" b: [String!]!) repeatable on | FIELD | QUERY"),
-        (Kind::Ts, "descriptions", "\"\"\"\n  Type doc\n\"\"\"\ntype A {\n  \"field doc\"\n  f(\"arg doc\" a: Int): Int @deprecated(reason: \"\"\"why\"\"\")\n}"),
-        (Kind::Ts, "lone-cr-schema", "type A {\r  f: Int\r}\rscalar S"),
-        (Kind::Ts, "crlf-schema", "type A {\r\n  f: Int\r\n}\r\nscalar S"),
-        (Kind::Ts, "two-types", "type A { f: Int } type B { g: [A!]! }"),
-        (Kind::Ts, "enum-true", "enum E { true }"),
-        (Kind::Ts, "op-in-schema", "query { a }"),
+        (Kind::Op, "shorthand", "{ a }", true),
+        (Kind::Op, "shorthand-nested", "{ a { x } }", true),
+        (Kind::Op, "trailing-comment-no-newline", "query { a } # c", true),
+        (Kind::Op, "lone-cr", "query Q {\r  x\r}", true),
+        (Kind::Op, "crlf", "query Q {\r\n  x\r\n}", true),
+        (Kind::Op, "astral-column", "{ x(s: \"😀\") y }", true),
+        (Kind::Op, "surrogate-escape", "{ a(s: \"\\uD800\") }", false),
+        (Kind::Op, "brace-escape-too-big", "{ a(s: \"\\u{110000}\") }", false),
+        (Kind::Op, "brace-escape-overflow", "{ a(s: \"\\u{FFFFFFFFF}\") }", false),
+        (Kind::Op, "surrogate-pair", "{ a(s: \"\\uD83D\\uDE00\") }", true),
+        (Kind::Op, "brace-escape-ok", "{ a(s: \"\\u{1F600}\\u{41}\") }", true),
+        (Kind::Op, "block-string-raw", "{ a(s: \"\"\"\n    hello\n      world\n  \"\"\") }", true),
+        (Kind::Op, "block-string-escape", "{ a(s: \"\"\"x \\\"\"\" y\"\"\") }", true),
+        (Kind::Op, "block-string-simple", "{ a(s: \"\"\"simple\"\"\") }", true),
+        (Kind::Op, "empty-string", "{ a(s: \"\") }", true),
+        (Kind::Op, "bom", "\u{FEFF}query { a }", true),
+        (Kind::Op, "commas", ",,query,Q,{,a,,b,},", true),
+        (Kind::Op, "import", "#import F, G from \"./f.graphql\"\nquery { ...F }", true),
+        (Kind::Op, "import-wildcard", "# import * from \"x\"\n{ a }", true),
+        (Kind::Op, "import-multiline", "#import A,\n  B # c\n from \"x\" { a }", true),
+        (Kind::Op, "important-comment", "# important\n{ a }", true),
+        (Kind::Op, "keyword-names", "query query($on: on = on) { on: on fragment: type ...query ... on on { on } }", true),
+        (Kind::Op, "numbers", "{ a(i: -0, j: 12, f: 1.5e-3, g: 1E5, h: 0.0) }", true),
+        (Kind::Op, "int-then-name", "{ a(i: 1x) }", false),
+        (Kind::Op, "float-dot", "{ a(i: 1.) }", false),
+        (Kind::Op, "var-space", "query ($ a : Int) { f(x: $ a) @ d }", true),
+        (Kind::Op, "empty-doc", "", false),
+        (Kind::Op, "only-comment", "# nothing", false),
+        (Kind::Op, "empty-selection", "{ }", false),
+        (Kind::Op, "deep", "{a{b{c{d{e{f{g{h}}}}}}}}", true),
+        (Kind::Op, "values", "{ a(l: [], o: {}, n: null, t: true, f: false, e: E, ll: [[1], [{k: [$v]}]]) }", true),
+        (Kind::Ts, "type-no-body", "type A", true),
+        (Kind::Ts, "type-implements-no-body", "type A implements I", true),
+        (Kind::Ts, "type-directive-no-body", "type A @d", true),
+        (Kind::Ts, "union-no-members", "union U", true),
+        (Kind::Ts, "union-eq-no-members", "union U =", false),
+        (Kind::Ts, "union-leading-bar", "union U = | A | B", true),
+        (Kind::Ts, "implements-leading-amp", "type A implements & I & J { f: Int }", true),
+        (Kind::Ts, "interface-no-body", "interface I", true),
+        (Kind::Ts, "enum-no-body", "enum E", true),
+        (Kind::Ts, "input-no-body", "input X @d", true),
+        (Kind::Ts, "schema", "\"d\" schema @a { query: Q mutation: M }", true),
+        (Kind::Ts, "extend-schema", "extend schema @x", true),
+        (Kind::Ts, "extend-all", "extend scalar S @d extend type A implements I extend interface I @d extend union U = A extend enum E { X } extend input In { a: Int = 1 }", true),
+        (Kind::Ts, "directive-def", "\"\"\"doc\"\"\" directive @d(a: Int = 1 @x, \"d\" b: [String!]!) repeatable on | FIELD | QUERY", true),
+        (Kind::Ts, "descriptions", "\"\"\"\n  Type doc\n\"\"\"\ntype A {\n  \"field doc\"\n  f(\"arg doc\" a: Int): Int @deprecated(reason: \"\"\"why\"\"\")\n}", true),
+        (Kind::Ts, "lone-cr-schema", "type A {\r  f: Int\r}\rscalar S", true),
+        (Kind::Ts, "crlf-schema", "type A {\r\n  f: Int\r\n}\r\nscalar S", true),
+        (Kind::Ts, "two-types", "type A { f: Int } type B { g: [A!]! }", true),
+        (Kind::Ts, "enum-true", "enum E { true }", false),
+        (Kind::Ts, "op-in-schema", "query { a }", false),
     ]
 }
 
@@ -822,7 +832,7 @@ struct Ctx { cases: Cases, distinct: HashSet<String>, stats: BTreeMap<String, u6
 impl Ctx {
     fn bump(&mut self, k: &str) { *self.stats.entry(k.to_string()).or_insert(0) += 1; }
     /// runs one text; `canon`: erased AST of the canonical rendering this text must agree with
-    fn add(&mut self, kind: Kind, src: &str, stream: &str, file: usize, canon: Option<&Option<String>>, extra: serde_json::Value) -> (bool, Option<String>) {
+    fn add(&mut self, kind: Kind, src: &str, stream: &str, file: usize, canon: Option<&Option<String>>, in_lang: bool, extra: serde_json::Value) -> (bool, Option<String>) {
         let nchars = src.chars().count();
         if nchars > self.max_len { self.bump("skipped_too_long"); return (false, None); }
         let tree = pest_tree(kind, src);
@@ -834,12 +844,24 @@ impl Ctx {
         if let Some(ts) = &toks {
             for t in ts { if let Tk::Block(b) = t { if block_string_value(&b[3..b.len() - 3]) != b[3..b.len() - 3] { block_raw_ne_cooked = true; } } }
         }
-        let term = format!("{} {} {} {} {} {}",
+        let term = format!("{} {} {} {} {} {} {}",
             match kind { Kind::Op => "COp", Kind::Ts => "CTs" }, file, coq_str(src),
-            match &tree { None => "None".to_string(), Some((t, _)) => format!("(Some {})", t) }, ast_term, coq_bool(canon_same));
+            match &tree { None => "None".to_string(), Some((t, _)) => format!("(Some {})", t) }, ast_term, coq_bool(canon_same), coq_bool(in_lang));
+        // known-finding classes: a flag set by the generator for a construct + the failure mode that construct has
+        let mut spec_classes: Vec<String> = vec![];
+        if let Some(fl) = extra.get("constructs").and_then(|v| v.as_array()) {
+            for f in fl {
+                match (f.as_str().unwrap_or(""), outcome.as_str()) {
+                    ("object-type-without-fields", "err") => spec_classes.push("object-type-without-fields-rejected".into()),
+                    ("union-without-members", "err") => spec_classes.push("union-without-members-rejected".into()),
+                    ("surrogate-pair-escape", "panic1") => spec_classes.push("surrogate-pair-escape-panics".into()),
+                    _ => {}
+                }
+            }
+        }
         let mut d = json!({"kind": match kind { Kind::Op => "operation", Kind::Ts => "type-system" }, "stream": stream, "text": src, "file": file,
             "impl_outcome": outcome, "pairs": tree.as_ref().map(|t| t.1), "canon_same": canon_same,
-            "has_lone_cr": lone_cr, "block_raw_ne_cooked": block_raw_ne_cooked, "spec_lexable": toks.is_some()});
+            "has_lone_cr": lone_cr, "block_raw_ne_cooked": block_raw_ne_cooked, "spec_lexable": toks.is_some(), "in_lang": in_lang, "spec_classes": spec_classes});
         if let (Some(o), Some(e)) = (d.as_object_mut(), extra.as_object()) { for (k, v) in e { o.insert(k.clone(), v.clone()); } }
         self.bump(&format!("stream:{stream}"));
         self.bump(&format!("outcome:{outcome}"));
@@ -847,6 +869,7 @@ impl Ctx {
         if lone_cr { self.bump("with_lone_cr"); }
         if block_raw_ne_cooked { self.bump("with_block_string_needing_cooking"); }
         if !canon_same { self.bump("canon_differs"); }
+        if in_lang { self.bump("in_language"); if outcome != "ok" { self.bump("in_language_but_not_parsed"); } }
         if tree.is_some() != (outcome != "err") { self.bump("INCONSISTENT_tree_vs_ast"); }
         if outcome == "ok" && nchars >= 8 { self.distinct.insert(src.to_string()); }
         if self.samples.len() < 6 && self.cases.len() % 97 == 5 { self.samples.push(d.clone()); }
@@ -866,20 +889,26 @@ fn main() {
     };
 
     // 0. corpus
-    for (kind, name, text) in corpus() {
-        cx.add(kind, text, "corpus", 0, None, json!({"corpus": name}));
+    for (kind, name, text, in_lang) in corpus() {
+        let constructs: Vec<&str> = match name {
+            "type-no-body" | "type-implements-no-body" => vec!["object-type-without-fields"],
+            "union-no-members" => vec!["union-without-members"],
+            "surrogate-pair" => vec!["surrogate-pair-escape"],
+            _ => vec![],
+        };
+        cx.add(kind, text, "corpus", 0, None, in_lang, json!({"corpus": name, "constructs": constructs}));
     }
     // 1. the repository's own parser test inputs (dedented; original too when short enough)
     for (kind, text) in repo_test_inputs() {
         let d = dedent(&text);
-        cx.add(kind, &d, "repo-tests", 0, None, json!({}));
+        cx.add(kind, &d, "repo-tests", 0, None, true, json!({}));
         if let Some(toks) = lex(&d) {
             let canon = render_plain(&toks);
-            let (added, ce) = cx.add(kind, &canon, "repo-tests-canonical", 0, None, json!({}));
+            let (added, ce) = cx.add(kind, &canon, "repo-tests-canonical", 0, None, true, json!({}));
             if !added { continue; }
             let tv = Trivia { heavy: 5, lone_cr: false, bom: true, comments: true, crlf: true };
             let t = render_trivia(&mut rng, &toks, &tv);
-            cx.add(kind, &t, "repo-tests-trivia", 1, Some(&ce), json!({"canonical": canon}));
+            cx.add(kind, &t, "repo-tests-trivia", 1, Some(&ce), true, json!({"canonical": canon}));
         }
     }
 
@@ -899,11 +928,11 @@ fn main() {
         let set: std::collections::BTreeSet<usize> = [usize::MAX].into_iter().collect();
         let head = render_schema(&s, Some(&set));
         if !head.is_empty() { pieces.push(head); }
-        for text in pieces { variants(&mut cx, &mut rng, Kind::Ts, &text, "gen-schema"); }
+        for text in pieces { variants(&mut cx, &mut rng, Kind::Ts, &text, "gen-schema", &[]); }
         for _ in 0..(if thorough { 4 } else { 2 }) {
             let d = gen_doc(&mut rng, &s, &DocCfg { max_depth: 3, shorthand: true, ..DocCfg::default() });
-            for o in &d.ops { let one = Doc { ops: vec![o.clone()], frags: vec![], features: vec![] }; variants(&mut cx, &mut rng, Kind::Op, &one.render(), "gen-doc"); }
-            for f in d.frags.iter().take(2) { let one = Doc { ops: vec![], frags: vec![f.clone()], features: vec![] }; variants(&mut cx, &mut rng, Kind::Op, &one.render(), "gen-doc"); }
+            for o in &d.ops { let one = Doc { ops: vec![o.clone()], frags: vec![], features: vec![] }; variants(&mut cx, &mut rng, Kind::Op, &one.render(), "gen-doc", &[]); }
+            for f in d.frags.iter().take(2) { let one = Doc { ops: vec![], frags: vec![f.clone()], features: vec![] }; variants(&mut cx, &mut rng, Kind::Op, &one.render(), "gen-doc", &[]); }
         }
     }
 
@@ -911,11 +940,12 @@ fn main() {
     let n_pg = if thorough { 2500 } else { 260 };
     for i in 0..n_pg {
         let kind = if i % 2 == 0 { Kind::Op } else { Kind::Ts };
-        let mut pg = PG { rng: &mut rng, t: vec![], budget: 14 };
+        let mut pg = PG { rng: &mut rng, t: vec![], budget: 14, constructs: vec![] };
         if kind == Kind::Op { pg.op_doc(); } else { pg.ts_doc(); }
         let toks = pg.t;
+        let constructs = pg.constructs;
         let text = render_plain(&toks);
-        variants(&mut cx, &mut rng, kind, &text, "grammar-gen");
+        variants(&mut cx, &mut rng, kind, &text, "grammar-gen", &constructs);
     }
 
     // 4. malformed stream
@@ -923,7 +953,7 @@ fn main() {
     for i in 0..n_mal {
         let kind = if i % 2 == 0 { Kind::Op } else { Kind::Ts };
         let text = if i % 3 == 0 { random_soup(&mut rng) } else {
-            let mut pg = PG { rng: &mut rng, t: vec![], budget: 8 };
+            let mut pg = PG { rng: &mut rng, t: vec![], budget: 8, constructs: vec![] };
             if kind == Kind::Op { pg.op_doc(); } else { pg.ts_doc(); }
             let toks = pg.t;
             let m = mutate_tokens(&mut rng, &toks);
@@ -931,7 +961,7 @@ fn main() {
         };
         // an operation text through the type-system entry point and vice versa, now and then
         let kind = if rng.chance(1, 10) { if kind == Kind::Op { Kind::Ts } else { Kind::Op } } else { kind };
-        cx.add(kind, &text, "malformed", rng.below(3), None, json!({}));
+        cx.add(kind, &text, "malformed", rng.below(3), None, false, json!({}));
     }
 
     let n = cx.cases.len();
@@ -947,33 +977,33 @@ fn main() {
 }
 
 /// canonical text + variants with the same denotation (trivia, leading separators, shorthand, block strings)
-fn variants(cx: &mut Ctx, rng: &mut Rng, kind: Kind, text: &str, stream: &str) {
-    let Some(toks) = lex(text) else { cx.add(kind, text, stream, 0, None, json!({"note": "not lexable by the spec lexer"})); return; };
+fn variants(cx: &mut Ctx, rng: &mut Rng, kind: Kind, text: &str, stream: &str, constructs: &[&str]) {
+    let Some(toks) = lex(text) else { cx.add(kind, text, stream, 0, None, false, json!({"note": "not lexable by the spec lexer"})); cx.bump("GENERATOR_TEXT_NOT_LEXABLE"); return; };
     let canon = render_plain(&toks);
-    let (added, ce) = cx.add(kind, &canon, stream, 0, None, json!({"variant": "canonical"}));
+    let (added, ce) = cx.add(kind, &canon, stream, 0, None, true, json!({"variant": "canonical", "constructs": constructs}));
     if !added || ce.is_none() { return; }
-    let base = json!({"canonical": canon});
+    let base = json!({"canonical": canon, "constructs": constructs});
     // trivia only
     let tv = Trivia { heavy: rng.range(2, 8), lone_cr: false, bom: rng.chance(1, 2), comments: true, crlf: rng.chance(1, 2) };
     let t = render_trivia(rng, &toks, &tv);
-    cx.add(kind, &t, stream, rng.below(3), Some(&ce), merge(&base, json!({"variant": "trivia"})));
+    cx.add(kind, &t, stream, rng.below(3), Some(&ce), true, merge(&base, json!({"variant": "trivia"})));
     // lone CR as line terminator (known finding: positions)
     if rng.chance(1, 6) {
         let tv = Trivia { heavy: 4, lone_cr: true, bom: false, comments: rng.chance(1, 2), crlf: false };
         let t = render_trivia(rng, &toks, &tv);
-        cx.add(kind, &t, stream, 0, Some(&ce), merge(&base, json!({"variant": "trivia-lone-cr"})));
+        cx.add(kind, &t, stream, 0, Some(&ce), true, merge(&base, json!({"variant": "trivia-lone-cr"})));
     }
     // leading | and &
     let (t2, ch) = add_leading_separators(rng, &toks);
     if ch {
         let tv = Trivia { heavy: 2, lone_cr: false, bom: false, comments: false, crlf: false };
         let t = render_trivia(rng, &t2, &tv);
-        cx.add(kind, &t, stream, 0, Some(&ce), merge(&base, json!({"variant": "leading-separators"})));
+        cx.add(kind, &t, stream, 0, Some(&ce), true, merge(&base, json!({"variant": "leading-separators"})));
     }
     // anonymous query shorthand
     if kind == Kind::Op {
         let (t2, ch) = to_shorthand(&toks);
-        if ch { let t = render_plain(&t2); cx.add(kind, &t, stream, 0, Some(&ce), merge(&base, json!({"variant": "shorthand"}))); }
+        if ch { let t = render_plain(&t2); cx.add(kind, &t, stream, 0, Some(&ce), true, merge(&base, json!({"variant": "shorthand"}))); }
     }
     // block strings for quoted strings of the same value
     if rng.chance(1, 2) {
@@ -981,7 +1011,7 @@ fn variants(cx: &mut Ctx, rng: &mut Rng, kind: Kind, text: &str, stream: &str) {
         let (t2, ch) = to_block(rng, &toks, indent);
         if ch {
             let t = render_plain(&t2);
-            cx.add(kind, &t, stream, 0, Some(&ce), merge(&base, json!({"variant": if indent { "block-string-indented" } else { "block-string-simple" }})));
+            cx.add(kind, &t, stream, 0, Some(&ce), true, merge(&base, json!({"variant": if indent { "block-string-indented" } else { "block-string-simple" }})));
         }
     }
 }
